@@ -21,7 +21,8 @@ ASSUMPTIONS = [
 ]
 REQUIRED = {"roundtrip.CartesianGeometry": 50, "roundtrip.Structure": 50, "roundtrip.Molecule": 50,
             "roundtrip.ConformerEnsemble": 50, "units.xyz": 300, "units.mol2": 200, "units.members": 7, "bundled": 2, "multi.files": 40,
-            "zero-atoms": 3}
+            "zero-atoms": 3, "roundtrip.fmt-option": 50, "roundtrip.Substructure": 30, "roundtrip.Conformer": 20,
+            "roundtrip.ensemble-with-weights": 10}
 CHUNK_TIMEOUT = 600
 TECHNIQUE = "runtime monitoring: xyz write/read round-trip oracle + unit-conversion differential oracle (independent table)"
 LEVEL_TEXT = ("Held on the generated geometries: every object is written and read back through every xyz entry point; every "
@@ -65,6 +66,31 @@ def rand_coords(rng, n):
     return c
 
 
+NAME_WORDS = ["g", "name with spaces", "ünicode", "x" * 40, "12", "", "   ", "7", "Au 2", "bohr", "Bohr", "a.u.", "au", "pm", "nm 3",
+              "angstrom", "units=pm", "#17", "# remark", "@<TRIPOS>MOLECULE", "*", "$end", "3", "C 0.0 0.0 0.0", "1.0 2.0 3.0",
+              "H", "He 1 2 3", "-", "e=-12.5 hartree", "frame 3 of 7", "\ttab", "D", "line one\nline two", "junk\nC 9 9 9",
+              "trailing newline\n"]
+
+
+def gen_name(rng):
+    r = rng.random()
+    if r < 0.75:
+        return rng.choice(NAME_WORDS)
+    return " ".join(rng.choice(NAME_WORDS[:30]).strip() or "q" for _ in range(rng.randrange(2, 4)))
+
+
+def fmt_tolerance(fmt, value):
+    """half a unit of the last digit the format writes (fixed and exponent notation)"""
+    import math
+
+    prec = int(fmt.split(".")[1][:-1])
+    if fmt.endswith("f"):
+        return 0.51 * 10.0 ** -prec + 3e-16 * abs(value)
+    if value == 0 or not math.isfinite(value):
+        return 0.0
+    return 0.51 * 10.0 ** (math.floor(math.log10(abs(value))) - prec) * 1.0000001
+
+
 def make_geometry(rng, cls_name, n=None):
     import numpy as np
     import molli as ml
@@ -75,13 +101,28 @@ def make_geometry(rng, cls_name, n=None):
     atoms = []
     for i in range(n):
         r = rng.random()
+        # the other per-atom fields are set as well: nothing but the element may reach the element column
+        kw = {}
+        if rng.random() < 0.5:
+            kw["label"] = rng.choice(["CA", "CB", "OG1", "H12", "Cl2", "N", "x", "D", "T", "*", "7", ""])
+        if rng.random() < 0.3:
+            kw["isotope"] = rng.choice([1, 2, 3, 13, 15, 18])
+        if rng.random() < 0.3:
+            kw["formal_charge"] = rng.choice([-2, -1, 1, 2])
+        if rng.random() < 0.2:
+            kw["attrib"] = {"k": i}
         if r < 0.08:
-            atoms.append(Atom(Element.Unknown, atype=AtomType.Dummy))
+            atoms.append(Atom(Element.Unknown, atype=AtomType.Dummy, **kw))
         elif r < 0.16:
-            atoms.append(Atom(rng.choice(list(Element)), atype=AtomType.Dummy))     # a dummy-typed atom that has an element
+            atoms.append(Atom(rng.choice(list(Element)), atype=AtomType.Dummy, **kw))     # a dummy-typed atom that has an element
         else:
-            atoms.append(Atom(rng.choice(list(Element))))
-    g = cls(atoms, name=rng.choice(["g", "name with spaces", "ünicode", "x" * 40, "12", "", "   ", "7"]), coords=rand_coords(rng, n) if n else None)
+            atoms.append(Atom(rng.choice(list(Element)), **kw))
+    c = rand_coords(rng, n) if n else None
+    if n and rng.random() < 0.1:
+        # positions that are not known (yet): NaN rows, as append_atom and ConformerEnsemble(mol, n_conformers=k) leave them
+        for i in rng.sample(range(n), rng.randrange(1, n + 1)):
+            c[i] = np.nan
+    g = cls(atoms, name=gen_name(rng), coords=c)
     if cls_name in ("Structure", "Molecule") and n >= 2:
         for _ in range(rng.randrange(0, n)):
             i, j = rng.sample(range(n), 2)
@@ -139,6 +180,11 @@ def run_rt(spec, ctx):
             nc = rng.randrange(1, 9)
             x = ml.ConformerEnsemble(base, n_conformers=nc)
             x.coords = np.array([rand_coords(rng, base.n_atoms) for _ in range(nc)]).reshape(nc, base.n_atoms, 3)
+            if rng.random() < 0.6:
+                # every conformer is a frame of the file, whatever its weight or charges
+                x.weights = np.array([rng.choice([0.0, 1.0, 0.25, -1.0, 1e-12]) for _ in range(nc)])
+                x.atomic_charges = np.array([[rng.uniform(-1, 1) for _ in range(base.n_atoms)] for _ in range(nc)]).reshape(nc, base.n_atoms)
+                ctx.count("roundtrip.ensemble-with-weights")
             frames = [np.array(x.coords[i]) for i in range(nc)]
         else:
             x = make_geometry(rng, cname, n=0 if j % 11 == 0 else None)
@@ -187,6 +233,48 @@ def run_rt(spec, ctx):
                 compare_geom(ctx, case, f"{tag}:{rname}", els, frames[0], y[0])
             else:
                 compare_geom(ctx, case, f"{tag}:{rname}", els, frames[0], y)
+        # the writer's own precision option: what comes back agrees to the precision that was WRITTEN
+        if cname != "ConformerEnsemble" and x.n_atoms:
+            F = rng.choice(["18.12f", "10.3f", "14.8f", "20.12e", "16.6e", "12.1f"])
+            ctx.count("roundtrip.fmt-option")
+            try:
+                buf = io.StringIO()
+                x.dump_xyz(buf, fmt=F)
+                y = cls.loads_xyz(buf.getvalue())
+            except Exception as e:  # noqa
+                ctx.violation(f"{tag}:fmt-option:own-text-rejected-or-write-raises:{type(e).__name__}", case=case, fmt=F, err=repr(e)[:200])
+            else:
+                a, b = np.asarray(frames[0], float), np.asarray(y.coords, float)
+                if a.shape != b.shape or [int(q.element) for q in y.atoms] != els:
+                    ctx.violation(f"{tag}:fmt-option:atoms-differ", case=case, fmt=F)
+                else:
+                    tol = np.vectorize(lambda v: fmt_tolerance(F, v))(a) if a.size else a
+                    with np.errstate(invalid="ignore"):
+                        okm = (np.isnan(a) & np.isnan(b)) | (np.abs(a - b) <= tol) | (a == b)
+                    if not okm.all():
+                        i = tuple(np.argwhere(~okm)[0])
+                        ctx.violation(f"{tag}:fmt-option:coordinates-differ-beyond-written-precision", case=case, fmt=F,
+                                      want=float(a[i]), got=float(b[i]))
+        # every geometry-like object can be written: a Substructure (mol.heavy, mol.substructure(...)), a single Conformer
+        if cname in ("Structure", "Molecule") and x.n_atoms >= 1:
+            idx = rng.sample(range(x.n_atoms), rng.randrange(1, x.n_atoms + 1))
+            ctx.count("roundtrip.Substructure")
+            try:
+                sub = ml.Substructure(x, idx)
+                y = ml.Structure.loads_xyz(sub.dumps_xyz())
+            except Exception as e:  # noqa
+                ctx.violation(f"Substructure:write-or-read-back-raises:{type(e).__name__}", case=case, err=repr(e)[:200])
+            else:
+                compare_geom(ctx, case, "Substructure:loads_xyz", [els[i] for i in idx], frames[0][idx], y)
+        if cname == "ConformerEnsemble" and x.n_atoms >= 1:
+            i = rng.randrange(len(frames))
+            ctx.count("roundtrip.Conformer")
+            try:
+                y = ml.Molecule.loads_xyz(x[i].dumps_xyz())
+            except Exception as e:  # noqa
+                ctx.violation(f"Conformer:write-or-read-back-raises:{type(e).__name__}", case=case, err=repr(e)[:200])
+            else:
+                compare_geom(ctx, case, "Conformer:loads_xyz", els, frames[i], y)
         # multi-frame text through the *_all readers of the single-geometry classes
         if cname == "ConformerEnsemble" and len(frames) >= 2:
             for kls in (ml.CartesianGeometry, ml.Structure, ml.Molecule):
@@ -310,16 +398,35 @@ def run_units(spec, ctx):
                             ("mol2", f"{kls.__name__}.load_mol2", lambda k=kls: [k.load_mol2(pm, source_units=u)]),
                             ("mol2", f"{kls.__name__}.loads_all_mol2", lambda k=kls: k.loads_all_mol2(tm, source_units=u)),
                             ("mol2", f"{kls.__name__}.load_all_mol2", lambda k=kls: k.load_all_mol2(io.StringIO(tm), source_units=u))]
+            # the generator forms and the deprecated (still public) text entry point take the unit as well
+            for kls in (ml.CartesianGeometry, ml.Structure, ml.Molecule):
+                if hasattr(kls, "yield_from_xyz"):
+                    readers.append(("xyz", f"{kls.__name__}.yield_from_xyz(all)",
+                                    lambda k=kls: list(k.yield_from_xyz(io.StringIO(tx), source_units=u))))
+            for kls in (ml.Structure, ml.Molecule):
+                if hasattr(kls, "yield_from_mol2"):
+                    readers.append(("mol2", f"{kls.__name__}.yield_from_mol2(all)",
+                                    lambda k=kls: list(k.yield_from_mol2(io.StringIO(tm), source_units=u))))
             ens_readers = [("xyz", "ConformerEnsemble.load_xyz", lambda: ml.ConformerEnsemble.load_xyz(px, source_units=u)),
                            ("xyz", "ConformerEnsemble.loads_xyz", lambda: ml.ConformerEnsemble.loads_xyz(tx, source_units=u)),
                            ("mol2", "ConformerEnsemble.load_mol2", lambda: ml.ConformerEnsemble.load_mol2(pm, source_units=u)),
                            ("mol2", "ConformerEnsemble.loads_mol2", lambda: ml.ConformerEnsemble.loads_mol2(tm, source_units=u))]
+            if hasattr(ml.ConformerEnsemble, "from_mol2"):
+                def _from_mol2():
+                    import warnings
+                    with warnings.catch_warnings():
+                        warnings.simplefilter("ignore")
+                        return ml.ConformerEnsemble.from_mol2(tm, source_units=u)
+                ens_readers.append(("mol2", "ConformerEnsemble.from_mol2", _from_mol2))
             for fmt, rname, fn in readers:
                 ctx.count(f"units.{fmt}")
                 try:
                     ys = fn()
                 except Exception as e:  # noqa
                     ctx.violation(f"units:{fmt}:{rname}:raises:{type(e).__name__}", case=case, unit=u, err=repr(e)[:200])
+                    continue
+                if len(ys) != (nfr if "all" in rname else 1):
+                    ctx.violation(f"units:{fmt}:{rname}:frame-count-differs", case=case, unit=u, got=len(ys))
                     continue
                 for fr, y in zip(g, ys):
                     judge_units(ctx, case, fmt, rname, u, fr, np.asarray(y.coords))
